@@ -116,6 +116,7 @@ class SymExec:
                  max_depth: int = 3, max_leaves: int = 400, item_atom: str = "ITEM") -> None:
         self.item_atom = item_atom
         self.loops: list[LoopRecord] = []
+        self.closures: dict[tuple[str, str], FuncInfo] = {}  # (enclosing function, name) -> nested def met on a path
         self._in_loop = False
         self.prog = prog
         self.fn_stack = [fn]
@@ -301,6 +302,8 @@ class SymExec:
     def _helper(self, call: ast.Call) -> FuncInfo | None:
         fn = self.fn_stack[-1]
         f = call.func
+        if isinstance(f, ast.Name) and (fn.qual, f.id) in self.closures:
+            return self.closures[(fn.qual, f.id)]
         if isinstance(f, ast.Name) and f.id.startswith("_") and f.id in fn.module.functions:
             return fn.module.functions[f.id]
         if isinstance(f, ast.Attribute) and isinstance(f.value, ast.Name) and fn.cls is not None \
@@ -407,6 +410,10 @@ class SymExec:
 
     def _prep(self, stmts: list[ast.stmt]) -> list[ast.stmt]:
         out: list[ast.stmt] = []
+        fn = self.fn_stack[-1]
+        for s in stmts:  # nested defs are known before the calls that follow them are looked at
+            if isinstance(s, ast.FunctionDef) and not s.decorator_list:
+                self.closures.setdefault((fn.qual, s.name), FuncInfo(s.name, fn.module, s, None, fn))
         for s in stmts:
             if isinstance(s, ast.Expr) and isinstance(s.value, ast.Constant):
                 continue
@@ -492,6 +499,8 @@ class SymExec:
         self.used.add(h.qual)
         henv = self._bind(h, call, env)
         assert henv is not None
+        if h.outer is not None:  # closure: free variables are the caller's
+            henv = {**env, **henv}
         self.fn_stack.append(h)
         try:
             body = self.prep(list(h.node.body))
@@ -566,6 +575,13 @@ class SymExec:
     def _stmt(self, s: ast.stmt, env: Env, facts: tuple[Fact, ...], nxt: Any, ctl: Any) -> None:  # noqa: C901
         if isinstance(s, ast.Pass):
             return nxt(env, facts)
+        if isinstance(s, ast.FunctionDef) and not s.decorator_list:
+            # a nested closure: executed in line where it is called, seeing the caller's variables
+            fn = self.fn_stack[-1]
+            self.closures.setdefault((fn.qual, s.name), FuncInfo(s.name, fn.module, s, None, fn))
+            env2 = dict(env)
+            env2.pop(s.name, None)
+            return nxt(env2, facts)
         if isinstance(s, ast.Expr):
             if isinstance(s.value, ast.Constant) or (isinstance(s.value, ast.Call) and is_logging_call(s.value)):
                 return nxt(env, facts)
